@@ -345,32 +345,55 @@ def copyAndUpdate (strict : Bool) (h : Heap) (root : Ref) (other : List (Path ×
   | [] => (h, .ok root)                                   -- `if not other: return self`
   | _ => setMany strict false h root other
 
+/-- `parent_key_path.at(k)` for a key found in a dict: the key object itself. -/
+def dkeyToPKey : DKey → PKey
+  | .str s => .str s
+  | .int i => .int i
+  | .lit id v => .lit id v
+
+/-- `enumerate(data)` with keys `Index(start)`, `Index(start+1)`, … -/
+def seqChildren : List Ref → Nat → List (PKey × Ref)
+  | [], _ => []
+  | c :: cs, start => (.idx (start : Nat), c) :: seqChildren cs (start + 1)
+
+/-- The (key, child) pairs `_dfs_iter_tree` loops over: `data.items()` of a Mapping, `enumerate(data)`
+(keys `Index(i)`) of a Sequence; nothing for anything else. -/
+def Node.children : Node → List (PKey × Ref)
+  | .dict es => es.map fun kv => (dkeyToPKey kv.1, kv.2)
+  | .list rs | .tuple rs => seqChildren rs 0
+  | _ => []
+
+/-- `for x in xs: yield from g(x)`: the concatenation of the sub-generators' outputs, in order; the first
+exception ends the iteration. -/
+def collectE {α β : Type} (g : α → Except ErrKind (List β)) : List α → Except ErrKind (List β)
+  | [] => .ok []
+  | x :: xs =>
+    match g x with
+    | .error e => .error e
+    | .ok ys =>
+      match collectE g xs with
+      | .error e => .error e
+      | .ok zs => .ok (ys ++ zs)
+
 /-- `_dfs_iter_tree(data, parent_key_path)` (tree.py:286-310).  `fuel` bounds the recursion depth
-(Python: the interpreter's recursion limit → `RecursionError`, a `RuntimeError`); on a tree
-(acyclic data) a sufficient `fuel` exists and the result does not depend on it (proved in C18). -/
+(Python: the interpreter's recursion limit → `RecursionError`, a `RuntimeError`); on a finite tree a
+sufficient `fuel` exists and the result does not depend on it (proved in C18). -/
 def dfs (h : Heap) : Nat → Ref → Path → Except ErrKind (List Path)
   | 0, _, _ => .error .runtime
   | fuel + 1, r, parent =>
     match h[r]? with
     | none => .error .other
-    | some (.dict (e :: es)) =>
-      (e :: es).foldlM (fun acc (kv : DKey × Ref) =>
-        (dfs h fuel kv.2 (parent ++ [dkeyToPKey kv.1])).map (acc ++ ·)) []
-    | some (.list (c :: cs)) | some (.tuple (c :: cs)) =>
-      ((c :: cs).zipIdx).foldlM (fun acc (ci : Ref × Nat) =>
-        (dfs h fuel ci.1 (parent ++ [.idx ci.2])).map (acc ++ ·)) []
-    | some _ =>
-      if parent ≠ [] then .ok [parent]
-      else match truthy h r with
-        | .ok true => .ok [[.self]]
-        | .ok false => .ok []
-        | .error e => .error e
+    | some n =>
+      if n.children.isEmpty then dfsLeaf h r parent        -- a leaf (incl. empty containers)
+      else collectE (fun kc => dfs h fuel kc.2 (parent ++ [kc.1])) n.children
 where
-  /-- `parent_key_path.at(k)` for a key found in a dict: the key object itself. -/
-  dkeyToPKey : DKey → PKey
-    | .str s => .str s
-    | .int i => .int i
-    | .lit id v => .lit id v
+  /-- the two `elif`s at the end of `_dfs_iter_tree` -/
+  dfsLeaf (h : Heap) (r : Ref) (parent : Path) : Except ErrKind (List Path) :=
+    if parent ≠ [] then .ok [parent]                       -- `elif parent_key_path: yield Key(parent_key_path)`
+    else match truthy h r with                             -- `elif data: yield Key().SELF`
+      | .ok true => .ok [[.self]]
+      | .ok false => .ok []
+      | .error e => .error e
 
 /-- Fuel used by the executable model: more than the number of cells, which bounds the depth of
 any acyclic structure in the heap. -/
